@@ -23,7 +23,8 @@ CFG = {
             "(every special key x 4 modifier sets, ASCII keys plain/Ctrl/Alt, other scripts, decoded kitty release reports). "
             "Non-trivial = something is written towards the child; distinct by op line.",
     "trusted_base": ["unicode.IsLower etc. are parameters of the model (structure Uni)",
-                     "bytes -> sequences is the real ansi parser (C02); a lone ESC is resolved as the escape time-out does (C08)",
+                     "bytes -> sequences: the real ansi parser in the harness; in Lean the parser model of C02 (Props/C13Parse) for special keys, ASCII keys, SGR mouse reports, paste markers, text; "
+                     "a lone ESC is resolved as the escape time-out does (C08)",
                      "decimal rendering of fmt.Sprintf(\"%d\") and UTF-8 encoding of %c / WriteRune are modelled at the code-point level",
                      "the Go-body interpreter Model/GoInterp.lean and the go/ast translator extract/cmd/C09/gobody (validated against the implementation on every case)",
                      "the emulator model Model/Emu.lean (C05: transcribed bodies tied by C05's own body/correspondence checks) for Props/C13Child; "
@@ -51,6 +52,8 @@ CFG = {
                   "(every xterm legacy report the encoder writes, as bytes, parses back from ground to exactly that sequence; kernel decide), sgr_mouse_report_parses_back (any button / position < 2^63, "
                   "via C02.csi_roundtrip and decimal = digitsOf), paste_markers_parse_back, text_parses_back, alt_char_parses_back + alt_domain_is_parser_domain (the Alt exclusions of the round-trip "
                   "domain are exactly the bytes the parser's escape state does not dispatch). "
+                  "KNOWN FINDING F413 (Witness/F413, oracle [keypad]): keypad keys delivered as key codes of their own are written only through their text and DECKPAM/DECKPNM select nothing "
+                  "(keypad_maps_identical, keypad_keys_dropped, keypad_mode_selects_full_fails) - the keypad clause of the property is false of the current code. "
                   "Observations, not defects of the property: DECSTR / XTSAVE / XTRESTORE unimplemented (select nothing), Alt + text production "
                   "is sent as ESC + key. Modelled not verified: parser, unicode tables, pty write.",
     "assumptions": ["Key.Text and the strings written are valid UTF-8"],
